@@ -21,6 +21,9 @@ HERE = pathlib.Path(__file__).resolve().parent
 VERIF = HERE.parent
 if str(VERIF) not in sys.path:
     sys.path.insert(0, str(VERIF))
+if os.environ.get("CVERIF_SRC"):
+    # sensitivity runs: a scratch copy of /repo/src with a mutation applied
+    sys.path.insert(0, os.environ["CVERIF_SRC"])
 
 from cverif import sim, runner, oracles, profiles, props  # noqa: E402
 
@@ -125,9 +128,16 @@ def sample_of(scn, run):
 # worker process
 
 
+WARMED = False
+
+
 def warmup():
     """fixed history touching every subcommand, so that lazy imports and caches are populated before
     the first seeded run (DESIGN.md section 6)"""
+    global WARMED
+    if WARMED:
+        return
+    WARMED = True
     r = random.Random(12345)
     from cverif import scenario as S
 
